@@ -256,6 +256,9 @@ class WorkCalendarDiv(IWorkCalendar):
             if units is None:
                 units = c_units
             else:
+                if c_units == 0:
+                    # Divisor has no capacity at that date: no capacity, like a negative difference
+                    return None
                 units /= c_units
         return units
 
